@@ -344,6 +344,63 @@ theorem Mem.read_writeAll (a : Int) (B : List Nat) (cs : List Int) (m : Mem) (c 
     rw [Mem.writeAll_apply a B cs m c (a + i) hc (by omega) (by rw [e]; exact h2)]
     simp only [e]
 
+/-! ### different data per channel (2-D `set_data`) -/
+
+/-- writing block `p.2` at `a` on channel `p.1`, pair after pair -/
+def Mem.writePairs (m : Mem) (a : Int) (ps : List (Int × List Nat)) : Mem :=
+  ps.foldl (fun m p => m.write p.1 a p.2) m
+
+theorem blocksFor_cons (a : Int) (c : Int) (cs : List Int) (b : List Nat) (bs : List (List Nat)) :
+    blocksFor a (c :: cs) (b :: bs) = dataCmds c a (chunks MAX_CHUNK_LEN b) ++ blocksFor a cs bs := by
+  simp [blocksFor]
+
+theorem Mem.execAll_blocksFor (a : Int) : ∀ (cs : List Int) (perCh : List (List Nat)) (m : Mem),
+    m.execAll (blocksFor a cs perCh) = m.writePairs a (cs.zip perCh)
+  | [], _, m => by simp [blocksFor, Mem.execAll, Mem.writePairs]
+  | _ :: _, [], m => by simp [blocksFor, Mem.execAll, Mem.writePairs]
+  | c :: cs, b :: bs, m => by
+    rw [blocksFor_cons, Mem.execAll_append, Mem.execAll_dataCmds,
+      chunks_flatten MAX_CHUNK_LEN (by decide) _ _ (le_refl _), Mem.execAll_blocksFor a cs bs]
+    rfl
+
+theorem Mem.writePairs_other (a : Int) : ∀ (ps : List (Int × List Nat)) (m : Mem) (c t : Int),
+    c ∉ ps.map Prod.fst → (m.writePairs a ps) c t = m c t
+  | [], _, _, _, _ => rfl
+  | p :: ps, m, c, t, h => by
+    unfold Mem.writePairs
+    rw [List.foldl_cons]
+    have h1 : c ≠ p.1 := fun e => h (by rw [e]; simp)
+    have h2 : c ∉ ps.map Prod.fst := fun e => h (by simp only [List.map_cons, List.mem_cons]; exact Or.inr e)
+    have := Mem.writePairs_other a ps (m.write p.1 a p.2) c t h2
+    unfold Mem.writePairs at this
+    rw [this]
+    unfold Mem.write
+    simp only [h1, false_and, if_false]
+
+theorem Mem.read_write_self (m : Mem) (ch a : Int) (B : List Nat) : (m.write ch a B).read ch a B.length = B :=
+  Mem.read_writeAll a B [ch] m ch List.mem_cons_self
+
+theorem Mem.read_congr (m m' : Mem) (c a : Int) (n : Nat) (h : ∀ t, m c t = m' c t) : m.read c a n = m'.read c a n := by
+  unfold Mem.read
+  apply List.map_congr_left
+  intro i _
+  exact h _
+
+/-- with pairwise different channels every channel holds the block written for it -/
+theorem Mem.read_writePairs (a : Int) : ∀ (ps : List (Int × List Nat)) (m : Mem) (c : Int) (B : List Nat),
+    (ps.map Prod.fst).Nodup → (c, B) ∈ ps → (m.writePairs a ps).read c a B.length = B
+  | [], _, _, _, _, h => by simp at h
+  | p :: ps, m, c, B, hnd, hmem => by
+    have hnd' : (ps.map Prod.fst).Nodup := (List.nodup_cons.mp (by simpa using hnd)).2
+    have hnot : p.1 ∉ ps.map Prod.fst := (List.nodup_cons.mp (by simpa using hnd)).1
+    have e : m.writePairs a (p :: ps) = (m.write p.1 a p.2).writePairs a ps := rfl
+    rw [e]
+    rcases List.mem_cons.mp hmem with h | h
+    · subst h
+      rw [Mem.read_congr _ (m.write c a B) c a B.length (fun t => Mem.writePairs_other a ps _ c t hnot)]
+      exact Mem.read_write_self m c a B
+    · exact Mem.read_writePairs a ps _ c B hnd' h
+
 theorem Mem.read_add (m : Mem) (ch a : Int) (p q : Nat) :
     m.read ch a (p + q) = m.read ch a p ++ m.read ch (a + p) q := by
   unfold Mem.read
